@@ -218,6 +218,13 @@ class Ctx:
 _CTX = [None]
 
 
+def axiom(term):
+    """record a sound fact about an uninterpreted term for the current path"""
+    c = _CTX[0]
+    if c is not None:
+        c.assume(term)
+
+
 def ctx():
     c = _CTX[0]
     if c is None:
@@ -589,7 +596,7 @@ class Sym:
         if isinstance(o, np.ndarray):
             return _arr_binop(self, o, uf)
         if isinstance(o, SymC):
-            raise Unsupported('ordering comparison with a complex value')
+            return NotImplemented
         ot = self._other(o)
         if ot is None:
             return NotImplemented
@@ -960,7 +967,11 @@ class SymC:
         if _is_zero(self.re):
             return abs(self.im)
         n2 = _add0(_mul0(self.re, self.re), _mul0(self.im, self.im))
-        return Sym(uninterpreted('sqrt')(lift(n2)))
+        r = uninterpreted('sqrt')(lift(n2))
+        are, aim = lift(abs(self.re)), lift(abs(self.im))
+        # linear consequences of r = sqrt(re^2+im^2) (sound axioms, added to the path assumptions)
+        axiom(z3.And(r >= are, r >= aim, r <= are + aim))
+        return Sym(r)
 
     def abs2(self):
         return _add0(_mul0(self.re, self.re), _mul0(self.im, self.im))
@@ -977,10 +988,26 @@ class SymC:
             return r
         return ~r if isinstance(r, SymBool) else (not r)
 
-    def _ord(self, *a):
-        raise Unsupported('ordering comparison of complex symbolic values')
+    # numpy orders complex numbers lexicographically (real part, then imaginary part)
+    def _lex(self, o, strict_op, final_op):
+        if isinstance(o, np.ndarray):
+            return NotImplemented
+        o = self._o(o)
+        if o is None:
+            return NotImplemented
+        return _or(strict_op(self.re, o.re), _and(_eq0(self.re, o.re), final_op(self.im, o.im)))
 
-    __lt__ = __le__ = __gt__ = __ge__ = _ord
+    def __lt__(self, o):
+        return self._lex(o, lambda a, b: a < b, lambda a, b: a < b)
+
+    def __le__(self, o):
+        return self._lex(o, lambda a, b: a < b, lambda a, b: a <= b)
+
+    def __gt__(self, o):
+        return self._lex(o, lambda a, b: a > b, lambda a, b: a > b)
+
+    def __ge__(self, o):
+        return self._lex(o, lambda a, b: a > b, lambda a, b: a >= b)
     __hash__ = None
 
     def __float__(self):
